@@ -1,4 +1,5 @@
 import RsMatterVerif.Model.Chunk
+import RsMatterVerif.Model.ChunkEvents
 import Driver.Util
 /-! Driver for C14: the chunking model predicts, from the request (value lengths, data-version
 filters, event paths and filters, the events in the queue, the length of the transmit buffer,
@@ -13,9 +14,15 @@ contents intact; an error status only for a value that fits no message), and the
 the statuses of the invalid paths followed by exactly the queued events that match the paths and
 pass the filters, each once, in queue order.
 
-case header: `case <id> rd <B> <KS> <KW> <KE> <KI> <KX> <KV> <KT>`
+The event queue itself is modelled too (`Model/ChunkEvents.lean`): from the pushed events (priority,
+length of the event in the queue = report length − `KR`) the model predicts which events survive
+the evictions / promotions, in which buffer, in which iteration order; the prediction is compared
+with the real queue (iteration order and bytes in use per buffer).  Specification on the real
+queue: its event numbers ascend.
+
+case header: `case <id> rd <B> <KS> <KW> <KE> <KI> <KX> <KV> <KT> [<KR>]`
 op: `rd|sp [b<cap>] <item>… [f<1|2><m|x>]… [q<W|1>] [z<n>] [e<c|i|d><1|2>:<len>]… [m<min>]…`
-out: `<status> | <queue> | <chunk>;…`
+out: `<status> | <queue>@<ms>@<debug>,<info>,<critical>,<N> | <chunk>;…`
 -/
 namespace Driver.C14
 open Chunk
@@ -29,6 +36,8 @@ structure Hdr where
   kx : Nat := 0
   kv : Nat := 0
   kt : Nat := 0
+  /-- report length − length in the queue of an event (absent in old corpus headers) -/
+  kr : Option Nat := none
 
 inductive ReqItem
   | s (ep : Nat) (attr : Nat) (len : Nat)
@@ -354,16 +363,27 @@ def zeroItem : ReqItem → ReqItem
 
 def primingOf (o : Op) : Op := { o with report := false, events := [], items := o.items.map zeroItem }
 
+/-- the event queue: what the model of `im/events.rs` predicts from the pushes (iteration order,
+bytes in use in the debug / info / critical buffer); `none` = the model panics -/
+def ringPredict (h : Hdr) (o : Op) (ms n kr : Nat) : Option (List Nat × List Nat) :=
+  let ops := o.events.map fun (prio, _, len) => QOp.push prio (evSize h ms len - kr) none
+  ((Queue.new n).run ops).map fun q => (q.iter.map (·.num), [qLen q.debug, qLen q.info, qLen q.crit])
+
+def isAsc : List Nat → Bool
+  | a :: b :: rest => decide (a < b) && isAsc (b :: rest)
+  | _ => true
+
 structure St where
   h : Hdr := {}
 
 def step (st : St) (line : String) : St × String :=
   let (op, out) := splitArrow line
   match words op with
-  | "case" :: _ :: _ :: b :: ks :: kw :: ke :: ki :: kx :: kv :: kt :: _ =>
+  | "case" :: _ :: _ :: b :: ks :: kw :: ke :: ki :: kx :: kv :: kt :: more =>
     match b.toNat?, ks.toNat?, kw.toNat?, ke.toNat?, ki.toNat?, kx.toNat?, kv.toNat?, kt.toNat? with
     | some b, some ks, some kw, some ke, some ki, some kx, some kv, some kt =>
-      ({ h := { cap := b, ks := ks, kw := kw, ke := ke, ki := ki, kx := kx, kv := kv, kt := kt } }, "case")
+      ({ h := { cap := b, ks := ks, kw := kw, ke := ke, ki := ki, kx := kx, kv := kv, kt := kt,
+                kr := more.head?.bind String.toNat? } }, "case")
     | _, _, _, _, _, _, _, _ => (st, "BAD case header (calibration failed?)")
   | "case" :: _ => (st, "BAD case header")
   | ws =>
@@ -381,9 +401,22 @@ def step (st : St) (line : String) : St × String :=
       let ichunks := if ctext = "-" then [] else (ctext.splitOn ";").map parseIChunk
       if !ichunks.all Option.isSome then (st, "BAD chunk") else
       let cs := ichunks.filterMap id
+      let heads := ((qparts.getD 2 "").splitOn ",").filterMap String.toNat?
+      if !isAsc queue then (st, s!"ORA the event numbers of the queue {queue} do not ascend") else
       match oracle st.h o status queue ms cs with
       | some why => (st, s!"ORA {why}")
       | none =>
+        -- the model of the event queue against the real queue
+        let ringDis : Option String :=
+          match st.h.kr, heads with
+          | some kr, [hd, hi, hc, n] =>
+            match ringPredict st.h o ms n kr with
+            | none => some "DIS queue: the model panics"
+            | some (order, used) =>
+              if order = queue && used = [hd, hi, hc] then none
+              else some s!"DIS queue {order} used {used} (implementation: {queue} used {[hd, hi, hc]})"
+          | _, _ => none
+        if let some d := ringDis then (st, d) else
         if status.startsWith "status:" then (st, "ok") else
         let c := cfgOf st.h o (subIdOf status cs)
         -- a report presupposes the priming: if the device cannot prime, the subscription is not established
